@@ -228,7 +228,9 @@ def spacingB : List PT → List Bytes → Bytes → Bool
 /-- the fewest blanks: one space exactly where `followOk` demands a separation -/
 def tightBs : List PT → List Bytes
   | [] => []
-  | t :: ts => (if t.1 == .axisname || t.1 == .dcolon || followOk t (detokG ts (tightBs ts)) then [] else [0x20]) :: tightBs ts
+  | t :: ts =>
+    let r := tightBs ts
+    (if t.1 == .axisname || t.1 == .dcolon || followOk t (detokG ts r) then [] else [0x20]) :: r
 
 /-- the abbreviated text of `e` with the blanks `bs` -/
 def renderG (bs : List Bytes) (e : Expr) : Bytes := detokG (atoks e) bs
